@@ -1,9 +1,118 @@
 import NmVerif.Proto
+import NmVerif.Index.Slice
+/-
+  Driver for C05: answers the `slice` requests of harness/h_c05_*.cpp with the MODEL of NmVerif.Index.Slice
+  (same request syntax, same canonical answer text; see harness/c05_common.hpp).
+  `unmodelled` = the model says the C++ has UB / throws on this input (no value to compare).
+-/
 namespace NmVerif.Driver.C05
-open NmVerif NmVerif.Proto
+open NmVerif NmVerif.Proto NmVerif.Slice
 
-def handle : Handler := fun op _args =>
+def parsePart (s : String) : Option (Option Int) :=
+  if s == "N" then some none else s.toInt?.map some
+
+def parseEntry (t : String) : Option Entry :=
+  if t == "e" then some .ellipsis
+  else if t.startsWith "i" then (t.drop 1).toString.toInt?.map .int
+  else match t.splitOn ":" with
+    | [a, b, c] => do
+      let a ← parsePart a; let b ← parsePart b; let c ← parsePart c
+      pure (.range a b c)
+    | [a, b] => do
+      let a ← parsePart a; let b ← parsePart b
+      pure (.range2 a b)
+    | _ => none
+
+def parseEntries (s : String) : Option (List Entry) :=
+  if s == "[]" || s == "" then some [] else (s.splitOn ";").mapM parseEntry
+
+def maxElems : Nat := 4096
+
+/-- saturating element count of a possibly garbage shape (mirror of `numel_sat`) -/
+def numelSat (s : List Nat) : Nat :=
+  if s.any (· == 0) then 0 else
+  s.foldl (fun p e => if e > maxElems || p > maxElems then maxElems + 1 else p * e) 1
+
+def hasNonePart : Entry → Bool
+  | .range a b c => a.isNone || b.isNone || c.isNone
+  | .range2 a b => a.isNone || b.isNone
+  | _ => false
+
+def answerIndex (shapeF : Option (List Nat)) (idxF : List Nat → Option (List Nat)) (at? : Option (List Nat)) : String :=
+  match shapeF with
+  | none => "unmodelled"
+  | some dst =>
+    let hd := s!"ok shape={fmtNats dst} idx="
+    let n := numelSat dst
+    if let some d := at? then
+      match idxF d with
+      | none => "unmodelled"
+      | some i => hd ++ fmtNats i
+    else if n > maxElems then hd ++ "big"
+    else if n == 0 then hd ++ "[]"
+    else match (allIdx dst).mapM idxF with
+      | none => "unmodelled"
+      | some l => hd ++ ";".intercalate (l.map fmtNats)
+
+def answerView (src : List Nat) (shapeF : Option (List Nat)) (idxF : List Nat → Option (List Nat)) : String :=
+  match shapeF with
+  | none => "unmodelled"
+  | some dst =>
+    let hd := s!"ok shape={fmtNats dst} data="
+    let n := numelSat dst
+    if n > maxElems then hd ++ "big"
+    else if n == 0 then hd ++ "[]"
+    else
+      let rec go (ds : List (List Nat)) (k : Nat) (acc : List String) : String :=
+        match ds with
+        | [] => hd ++ ",".intercalate acc.reverse
+        | d :: rest =>
+          match idxF d with
+          | none => "unmodelled"
+          | some i =>
+            if decide (InShape i src) then go rest (k + 1) (toString (computeOffset i (strides src)) :: acc)
+            else hd ++ ",".intercalate acc.reverse ++ s!"oob@{k}"
+      go (allIdx dst) 0 []
+
+def answerMutable (src : List Nat) (shapeF : Option (List Nat)) (idxF : List Nat → Option (List Nat)) : String :=
+  match shapeF with
+  | none => "unmodelled"
+  | some dst =>
+    let hd := s!"ok shape={fmtNats dst} buf="
+    let n := numelSat dst
+    if n > maxElems then hd ++ "big"
+    else
+      let rec go (ds : List (List Nat)) (k : Nat) (buf : List Nat) : String :=
+        match ds with
+        | [] => hd ++ fmtNats buf
+        | d :: rest =>
+          match idxF d with
+          | none => "unmodelled"
+          | some i =>
+            if decide (InShape i src) then go rest (k + 1) (buf.set (computeOffset i (strides src)) (k + 1))
+            else hd ++ s!"oob@{k}"
+      go (if n == 0 then [] else allIdx dst) 0 (List.replicate (prod src) 0)
+
+def handle : Handler := fun op a =>
   match op with
+  | "slice" => orBad do
+      let enc ← a.get? "enc"
+      let level ← a.get? "level"
+      let src ← a.nats "shape"
+      let es ← (a.get? "sl").bind parseEntries
+      let dyn := enc == "dynP" || enc == "dynA"
+      if !dyn && enc != "packed" then none
+      -- view::slice / view::mutable_slice (variadic) go through `nmtools_tuple{slices...}`
+      let viaVariadic := !dyn && (level == "view" || level == "mutable")
+      if viaVariadic && es.length == 1 && es.any hasNonePart then pure "not-callable" else
+      let es := if viaVariadic then ctadCollapse es else es
+      let shapeF := if dyn then shapeDynamicSlice src es else shapeSlice src es
+      let idxF := if dyn then dynamicSlice src es else sliceIdx src es
+      match level with
+      | "index" | "apply" => pure (answerIndex shapeF idxF (a.nats "at"))
+      | "view" | "viewapply" => pure (answerView src shapeF idxF)
+      | "mutable" | "mutableapply" => pure (answerMutable src shapeF idxF)
+      | _ => none
   | _ => none
 
 end NmVerif.Driver.C05
